@@ -597,7 +597,7 @@ def live_levels(P, R):
 _BROAD = {'Exception', 'BaseException', '_NeedsReordering'}
 
 
-def _broad_handlers(tree):
+def _broad_handlers(tree, protocol=False):
     """(try statement, handler) pairs whose handler would catch the
     reordering request - it derives from `Exception` - raised by a call
     in the `try` body, and does not pass it on with a bare `raise`."""
@@ -619,6 +619,13 @@ def _broad_handlers(tree):
                 h.type.elts if isinstance(h.type, ast.Tuple) else [h.type])
             names = {au.src(x).rsplit('.', 1)[-1] for x in types}
             if h.type is not None and not names & _BROAD:
+                continue
+            if h.type is not None and names <= {'_NeedsReordering'} \
+                    and protocol:
+                # the wrapper of `_try_to_reorder` (and the context
+                # manager it may use) is where the request is meant to be
+                # caught: what it does with it is decided by the wrapper
+                # model
                 continue
             last = h.body[-1] if h.body else None
             if isinstance(last, ast.Raise) and last.exc is None:
@@ -655,7 +662,10 @@ def swallowed(P, R):
                         key=lambda f: -len(f.qualname)):
             n += sum(1 for t in au.walk_no_defs(f.node)
                      if isinstance(t, ast.Try))
-            for t, h in _broad_handlers(f.node):
+            for t, h in _broad_handlers(f.node, protocol=(
+                    f.qualname.startswith('dd.bdd._try_to_reorder')
+                    or f.qualname.startswith(
+                        'dd.bdd._ReorderingContext'))):
                 if id(h) not in seen:
                     seen.add(id(h))
                     pairs.append((f, h))
